@@ -15,7 +15,7 @@ TInit == /\ tid \in 1..NT /\ l = 1
          /\ scn = Traces[tid].scn
          /\ blk = [i \in 1..Len(ScnOf(scn).xs) |-> MkBlock(ScnOf(scn), i, Traces[tid].dyn[i])]
          /\ env = [i \in 1..Len(ScnOf(scn).xs) |-> 0]
-         /\ enabled = TRUE /\ reps = <<>> /\ unrep = <<>> /\ grp = <<>>
+         /\ enabled = TRUE /\ reps = <<>> /\ tvalid = TRUE /\ unrep = <<>> /\ grp = <<>>
          /\ genv = [i \in 1..Len(ScnOf(scn).xs) |-> 0]
          /\ err = "" /\ act = [n |-> "Init"] /\ hist = <<>>
 Ev == Traces[tid].ev[l]
